@@ -77,13 +77,13 @@ func (p *parrot) coq() string {
 
 var allSuites []uint16
 
-func serverCoq(kind int, notAfter int64) string {
+func serverCoq(kind int, notAfter int64, suites []uint16) string {
 	vers := map[int]string{srv12: "[771]", srv13: "[772]", srv13hrr: "[772]", srvBoth: "[772; 771]"}[kind]
 	groups := "[4588; 29; 23; 24; 25]"
 	if kind == srv13hrr {
 		groups = "[24]"
 	}
-	return fmt.Sprintf("(mkServer 7 %s %s %s %d [1; 2; 3; 4; 5; 6])", vers, u16list(allSuites), groups, notAfter)
+	return fmt.Sprintf("(mkServer 7 %s %s %s %d [1; 2; 3; 4; 5; 6])", vers, u16list(suites), groups, notAfter)
 }
 
 // ---------- observation -> seen ----------
@@ -223,6 +223,9 @@ func run(c *vh.Ctx) {
 			if c.Tier == "quick" && !p.Golang && !p.HasPSK && (k == srvBoth || k == srv13hrr) && !(strings.HasSuffix(p.Name, "_120") || strings.HasSuffix(p.Name, "_133") || strings.HasPrefix(p.Name, "360") || strings.HasPrefix(p.Name, "IOS_14")) {
 				continue // quick tier: the two extra server kinds only for a few non-PSK parrots
 			}
+			if c.Tier == "quick" && !p.Max13 && (k == srv13 || k == srv13hrr) {
+				continue // no common version: nothing to resume, covered by the thorough tier
+			}
 			h := []connPlan{mk(p, 0, k, hour), mk(p, 0, k, hour)}
 			if k == srv13hrr {
 				h = append(h, mk(p, 0, k, hour))
@@ -271,7 +274,7 @@ func run(c *vh.Ctx) {
 	if c.Tier == "quick" {
 		emsKinds = []int{srv12}
 	}
-	for _, a := range lim(emsA, 7) {
+	for _, a := range lim(emsA, 5) {
 		for _, b := range lim(emsNo, 3) {
 			for _, k := range emsKinds {
 				hists = append(hists, []connPlan{mk(a, 0, k, hour), mk(b, 0, k, hour), mk(b, 0, k, hour)})
@@ -385,6 +388,9 @@ func run(c *vh.Ctx) {
 		}
 		var items []string
 		var keyb strings.Builder
+		var spTab, svTab []string // tables of the distinct specs / servers of this history
+		spIdx := map[*parrot]int{}
+		svIdx := map[int]int{}
 		// every session the client ever put into the cache, by ticket: which server name it was negotiated with
 		// (Config.ServerName as configured; "@address" without one) and by which parrot
 		type origin struct {
@@ -392,6 +398,41 @@ func run(c *vh.Ctx) {
 			info             tls.VerifC19Session
 		}
 		origins := map[string]origin{}
+		// to keep the case terms small: the server's suite list is cut down to the suites that occur in this history
+		// (every one of them is in the server's real list), the cache is compared on the keys this history can touch
+		var srvSuites []uint16
+		var histKeys []int
+		{
+			ss := map[uint16]bool{}
+			ks := map[int]bool{}
+			for j := range r.obs {
+				if cs := r.obs[j].CliSuite; cs != 0 && suiteKnown(cs) {
+					ss[cs] = true
+				}
+				ss[defaultSuite(r.plans[j].P, r.plans[j].Srv)] = true
+				for _, a := range r.obs[j].After {
+					if suiteKnown(a.Suite) {
+						ss[a.Suite] = true
+					}
+				}
+				if id := nameID(r.plans[j].Name); id != 0 {
+					ks[id] = true
+				}
+				ks[addrID(r.plans[j].Srv)] = true
+				for id := range r.obs[j].After {
+					ks[id] = true
+				}
+			}
+			for x := range ss {
+				srvSuites = append(srvSuites, x)
+			}
+			sort.Slice(srvSuites, func(i, j int) bool { return srvSuites[i] < srvSuites[j] })
+			for _, id := range keyIDs {
+				if ks[id] {
+					histKeys = append(histKeys, id)
+				}
+			}
+		}
 		nontrivial := false
 		elapsed := time.Duration(0)
 		for j := range r.obs {
@@ -498,7 +539,7 @@ func run(c *vh.Ctx) {
 				}
 			}
 			var cacheItems []string
-			for _, id := range keyIDs {
+			for _, id := range histKeys {
 				if s, ok := o.After[id]; ok {
 					cacheItems = append(cacheItems, fmt.Sprintf("(%d, Some (%d, %d, %s))", id, s.Version, s.Suite, vh.Bool(s.EMS)))
 				} else {
@@ -509,8 +550,16 @@ func run(c *vh.Ctx) {
 			if len(o.Srv.hellos) > 0 {
 				helloEMS = o.Srv.hellos[0].HasEMS
 			}
-			items = append(items, fmt.Sprintf("(mkConn %s %d %d %s %d %s %s %d %d, mkSeen %d %s %d %s %s %s)",
-				p.coq(), nameID(pl.Name), addrID(pl.Srv), serverCoq(pl.Srv, notAfter), o.Now, vh.Bool(pl.OmitEmpty), vh.Bool(pl.SkipVerify), suite, tlen,
+			if _, ok := spIdx[p]; !ok {
+				spIdx[p] = len(spTab)
+				spTab = append(spTab, p.coq())
+			}
+			if _, ok := svIdx[pl.Srv]; !ok {
+				svIdx[pl.Srv] = len(svTab)
+				svTab = append(svTab, serverCoq(pl.Srv, notAfter, srvSuites))
+			}
+			items = append(items, fmt.Sprintf("(mkRef %d %d %d %d %d %s %s %d %d, mkSeen %d %s %d %s %s %s)",
+				spIdx[p], svIdx[pl.Srv], nameID(pl.Name), addrID(pl.Srv), o.Now, vh.Bool(pl.OmitEmpty), vh.Bool(pl.SkipVerify), suite, tlen,
 				cls, vh.Bool(o.CliResumed), code, vh.Bool(helloEMS), vh.Bool(o.CliHRRSeen), vh.List(cacheItems)))
 			fmt.Fprintf(&keyb, "%s/%d/%d/%d/%v/%v;", p.Name, pl.Name, pl.Srv, pl.Advance/time.Second, pl.OmitEmpty, pl.SkipVerify)
 
@@ -544,7 +593,7 @@ func run(c *vh.Ctx) {
 		if hi < 3 {
 			sample = map[string]any{"parrots": planNames(r.plans), "servers": planSrvs(r.plans), "resumed": obsResumed(r.obs)}
 		}
-		c.Case("history", "(CHist "+vh.List(items)+")", keyb.String(), nontrivial, sample)
+		c.Case("history", "(CHistT "+vh.List(spTab)+" "+vh.List(svTab)+" "+vh.List(items)+")", keyb.String(), nontrivial, sample)
 	}
 	c.Extra["connections"] = nconn
 	c.Extra["resumed_connections"] = nres
@@ -563,6 +612,15 @@ var keyIDs = func() []int {
 	}
 	return r
 }()
+
+func suiteKnown(id uint16) bool {
+	for _, x := range allSuites {
+		if x == id {
+			return true
+		}
+	}
+	return id == 0x1301 || id == 0x1302 || id == 0x1303
+}
 
 func defaultSuite(p *parrot, kind int) uint16 {
 	want13 := kind == srv13 || kind == srv13hrr || (kind == srvBoth && p.Max13)
